@@ -103,6 +103,11 @@ def run_case(case):
                 if set(y.columns) != set(x.columns):
                     out["violations"].append({"kind": "round_trip_columns_differ", "detail": f"{what} via {B},{C}"})
                 locked([x], y, f"{what} round trip via {B},{C}")
+                have = {id(n) for n in interp.walk(y)}
+                for nodes in structure.locked_nodes(x).values():
+                    for n in nodes:
+                        if id(n) not in have:
+                            out["violations"].append({"kind": "round_trip_dropped_locked_node", "detail": f"{what} via {B},{C}: {type(n).__name__} {short(n, 120)} is no longer part of {short(y, 200)}"})
                 for kind, detail in structure.check_c14(y):
                     out["violations"].append({"kind": kind, "detail": f"{what} round trip via {B},{C}: {detail}"})
                 out["sigs"].append(f"trip:{x.engine}>{B}>{C}:{'same' if y is x else 'new'}:{tail}")
